@@ -1,6 +1,6 @@
 """C01 - every libwayland debug line decodes to exactly the message it denotes."""
 import itertools, json, os, random, sys
-import framework, tlc, printer, e1
+import framework, tlc, printer, e1, gen
 
 LEVEL = 'model_checking'
 CH = {'q': '"', 'c': ',', 's': ' ', 'b': '\\', 'o': 'x'}
@@ -108,6 +108,69 @@ def compare(ev, dialect, mark, m, cid, conn_expected):
         elif k == 'array':
             if type(x) is not A.Array: bad.append('kind:array')
     return bad
+
+
+def fresh_aspects(msg):
+    """a message as the decoder hands it over: nothing but what the line says (names, nil interfaces and enum labels come
+    later, from the protocol descriptions) - returns what is there already"""
+    A = e1.mods().wl.Arg
+    bad = []
+    for x in msg.args:
+        if getattr(x, 'name', None) is not None: bad.append('stale:name')
+        if type(x) is A.Null and getattr(x, 'type', None) is not None: bad.append('stale:nil-type')
+        if type(x) is A.Int and hasattr(x, 'labels'): bad.append('stale:labels')
+    return bad
+
+
+def stateful_decode(ctx, rep):
+    """Decoding is a function of the line alone: whole sessions go through the tool's own loop (parse.into_sink), every message is
+    intercepted between the decoder and the connection it is handed to, compared with the line it came from, and then
+    passed on - so that whatever the tool does to a message afterwards (resolution against the object table and the
+    protocol) has happened to all earlier messages when the next line is decoded."""
+    import io
+    m = e1.mods()
+    n = 0
+    for k in range(ctx.pick(40, 400)):
+        g = gen.SessionGen(ctx.seed * 15485863 + k, nconn=(1, 2), nmsg=(25, 60), junk=0.05, core=(k % 2 == 0))
+        s = g.session()
+        render = {'dialect': 'new' if k % 2 else 'old', 'mark': ',' if k % 5 == 0 else '.'}
+        evs = [e['in'] for e in s['events'] if e['in']['e'] in ('msg', 'junk')]
+        lines = [printer.line(ev, **render) if ev['e'] == 'msg' else ev['text'] for ev in evs]
+        want = [ev for ev in evs if ev['e'] == 'msg']
+        S = e1.Session()
+        got = []
+
+        class Sink:
+            def open_connection(self, time, connection_id, is_server):
+                return S.cm.open_connection(time, connection_id, is_server)
+            def close_connection(self, time, connection_id):
+                return S.cm.close_connection(time, connection_id)
+            def message(self, connection_id, message):
+                i = len(got)
+                bad = fresh_aspects(message)
+                if i < len(want):
+                    bad += compare(want[i], render['dialect'], render['mark'], message, connection_id, want[i]['tag'] or 'PARSED')
+                got.append(bad)
+                return S.cm.message(connection_id, message)
+        try:
+            m.parse.into_sink(io.StringIO('\n'.join(lines) + '\n'), S.output, Sink())
+        except Exception as e:
+            rep.violation('stateful:exception', 'the session loop raised %r' % (e,), {'kind': 'session-lines', 'lines': lines})
+            continue
+        rep.case('session:' + json.dumps(lines))
+        n += len(got)
+        if len(got) != len(want):
+            rep.violation('stateful:count', '%d message lines, %d messages decoded in the session loop' % (len(want), len(got)),
+                          {'kind': 'session-lines', 'lines': lines})
+        for i, bad in enumerate(got):
+            if bad:
+                rep.violation('stateful:' + ','.join(sorted(set(bad))),
+                              'message %d of a session (%r) leaves the decoder as %s, although the same line decodes correctly on its own'
+                              % (i + 1, printer.line(want[i], **render) if i < len(want) else '?', sorted(set(bad))),
+                              {'kind': 'session-lines', 'lines': lines})
+                break
+    rep.extra['messages_decoded_in_sessions'] = n
+    return n
 
 
 def arg_key(a, dialect):
@@ -244,6 +307,8 @@ def run(ctx):
                 key = 'decode:' + ('+'.join(sorted(culprits)) if culprits else ','.join(sorted(set(bad))))
                 rep.violation(key, 'line %r decodes wrongly: %s' % (line, sorted(set(bad))), {'kind': 'line', 'line': line, 'abstract': ev})
     rep.extra['lines_decoded'] = nlines
+    # ---- 2b. the same inside whole sessions: decoding must not depend on what was decoded before
+    nlines += stateful_decode(ctx, rep)
     # ---- 3. lines that hold no message
     nj = 0
     for cls, texts in junk_lines(r, valid_lines).items():
@@ -274,6 +339,18 @@ def replay(ctx, data):
     m = e1.mods()
     if data['kind'] == 'split':
         print(repr(data['text']), '->', m.parse.argument_list_strs(data['text']))
+        return True
+    if data['kind'] == 'session-lines':
+        import io
+        S = e1.Session()
+        class Sink:
+            def open_connection(self, *a): return S.cm.open_connection(*a)
+            def close_connection(self, *a): return S.cm.close_connection(*a)
+            def message(self, cid, message):
+                print(cid, [(type(x).__name__, getattr(x, 'name', None), getattr(x, 'type', None) if type(x).__name__ == 'Null' else '') for x in message.args],
+                      fresh_aspects(message))
+                return S.cm.message(cid, message)
+        m.parse.into_sink(io.StringIO('\n'.join(data['lines']) + '\n'), S.output, Sink())
         return True
     m.wl.Message.base_time = 0.0
     try:
